@@ -699,6 +699,16 @@ def _checker_pairs(seed: int, n: int, all_zoo: bool = False):
         for cb in ("Submodel", "AssetAdministrationShell", "ConceptDescription"):
             if ca != cb:
                 out.append((_ident(ca, "urn:same"), _ident(cb, "urn:same"), ("Identifiable", f"class:{ca}->{cb}")))
+    # directed (round 8): an operation variable that sits in another direction (same variables, same overall order)
+    def _oper(i_, o_, io_):
+        def var(n_):
+            return _m.Property(n_, _m.datatypes.Int, 1)
+        return _m.Submodel("urn:op", [_m.Operation("op", [var(x) for x in i_], [var(x) for x in o_], [var(x) for x in io_])])
+    for a_, b_, w_ in [((("a",), (), ()), ((), ("a",), ()), "in->out"),
+                       (((), ("a",), ()), ((), (), ("a",)), "out->inout"),
+                       ((("a", "b"), ("c",), ()), (("a",), ("b", "c"), ()), "split-moved"),
+                       ((("a",), (), ("b",)), ((), ("a",), ("b",)), "in->out+inout")]:
+        out.append((_oper(*a_), _oper(*b_), ("Operation", "direction:" + w_)))
     i = 0
     n = n + len(out)
     while len(out) < n and i < 4 * n:
